@@ -211,7 +211,10 @@ impl Token {
                         }
                         _ => {}
                     }
-                } else if let Some(e) = acc.iter().find(|e| e.composed == c) {
+                } else if let Some(e) = {
+                    let all: Vec<&oracle::Accent> = acc.iter().filter(|e| e.composed == c).collect();
+                    if all.is_empty() { None } else { Some(all[cx.rng.below(all.len())]) }
+                } {
                     // (a language that composes without folding knows no "folded" spelling)
                     match cx.rng.below(if oracle::folds_composed(lang) { 3 } else { 1 }) {
                         0 => {
